@@ -163,6 +163,9 @@ func init() {
 					}
 				}
 				outs = append(outs, res)
+			case it == "pop":
+				m, ok := b.PopMove()
+				outs = append(outs, optMove(m, ok))
 			case strings.HasPrefix(it, "s:"):
 				f := strings.Split(it[2:], ":")
 				if len(f) != 8 {
@@ -532,6 +535,30 @@ func genC11(o *Out, r *rand.Rand, thorough bool) {
 			items = append(items, "m:"+moveUci(m))
 			for d := 1; d <= maxd; d++ {
 				items = append(items, fmt.Sprintf("s:%d:%s:0", d, fullWin))
+			}
+		}
+		// take-backs: a position searched as a ROOT (possibly one the board calls drawn only when it is reached by a capture,
+		// or a mate/stalemate) and then met again as a CHILD of its predecessor, one ply deeper, with the same table
+		if r.Intn(2) == 0 {
+			f2 := f.Fork()
+			legal := f2.Position().LegalMoves(f2.Turn())
+			if len(legal) > 0 {
+				m, _ := biased(r)(legal)  // captures weighted
+				for _, c := range legal { // prefer a capture into a bare position if there is one
+					if c.IsCapture() && f2.Position().All().PopCount() <= 4 {
+						m = c
+						break
+					}
+				}
+				items = append(items, "m:"+moveUci(m))
+				for d := 1; d <= maxd; d++ {
+					items = append(items, fmt.Sprintf("s:%d:%s:0", d, fullWin))
+				}
+				items = append(items, "pop")
+				for d := 1; d <= maxd+1 && d <= 4; d++ {
+					items = append(items, fmt.Sprintf("s:%d:%s:0", d, fullWin))
+				}
+				o.Count("tt:takeback")
 			}
 		}
 		line := fmt.Sprintf("search %d %s %d %d %s ; %s", r.Intn(2), cfg, size, minDepth, start, strings.Join(append(moves, items...), " "))
